@@ -505,6 +505,7 @@ pub fn run(sc: &Scenario, script: Option<Vec<Entry>>, rng: &mut Rng, max_steps: 
         eng.cv.notify_all();
     }
     for h in handles { let _ = h.join(); }
+    close_leaked(&path);
     *verif_shim::HOOKS.write().unwrap() = None;
     *ENGINE.lock().unwrap() = None;
     let g = eng.mx.lock().unwrap();
